@@ -169,6 +169,26 @@ def getitem(interp, st, base, idx, node=None):
             return base.rows.width
         raise Outside("index into shape of rows array", node)
     if isinstance(base, M.Rows):
+        if isinstance(idx, tuple) and isinstance(base.src, SymList):
+            # a multi-dimensional index needs the 2-d shape (n, width), which the array has only when it is not empty (with no rows numpy made a
+            # 1-d empty array and raises IndexError: too many indices): an obligation, then the (n, width) grid is indexed
+            n = M.rows_len(interp, st, base, node)
+            _oblige_index(interp, st, M.s_cmp(ast.Gt(), n, 0), node)
+            elem = base.src.get(z3.Int(V.fresh_name("rk")))
+            a = elem if isinstance(elem, Arr) else Arr.from_nested(list(elem))
+            kq = z3.Int(V.fresh_name("rq"))
+            ek = base.src.get(kq)
+            ak = ek if isinstance(ek, Arr) else Arr.from_nested(list(ek))
+
+            def fn(ix):
+                row = [z3.substitute(to_z3(v), (kq, ix[0])) for v in ak.flat]
+                out = row[-1]
+                for c in range(len(row) - 2, -1, -1):
+                    out = z3.If(ix[1] == c, row[c], out)
+                return out
+
+            g = M.grid_lambda([n, base.width], a.kind, fn)
+            return grid_getitem(interp, st, g, idx, node)
         if isinstance(idx, tuple) or isinstance(idx, slice):
             raise Outside("multi-dimensional index into rows array", node)
         v = getitem(interp, st, base.src, idx, node)
